@@ -40,7 +40,7 @@ def default_callback(result, body=b"ok", extra_headers=()):
     return cb
 
 
-def run_server(segments, make_app=None, server_kwargs=None, eof=True, ticks_between=2, address=("10.1.2.3", 4321), after=None):
+def run_server(segments, make_app=None, server_kwargs=None, eof=True, ticks_between=2, address=("10.1.2.3", 4321), after=None, accepts=()):
     """segments: list of bytes pieces (delivered one per readiness event).  Returns Result."""
     res = Result()
     catcher = LogCatcher()
@@ -54,7 +54,7 @@ def run_server(segments, make_app=None, server_kwargs=None, eof=True, ticks_betw
     async def main(v):
         app = make_app(res) if make_app else default_callback(res)
         server = httpserver.HTTPServer(app, **(server_kwargs or {}))
-        stream = FakeTransportStream()
+        stream = FakeTransportStream(accepts=list(accepts))
         res.stream = stream
         server.handle_stream(stream, address)
         await v.tick(ticks_between)
